@@ -21,6 +21,59 @@ EXPLANATION = ('The chain parameter -> constructor argument -> attribute -> loop
 TRUSTED = ['CPython ast', 'iva engine']
 
 
+def _wired_by_constructor(ctx: Ctx, e, holder_field: str) -> bool:
+    """On every path of Solver.__init__ (factories inlined): one Evolvent is constructed, self.evolvent is that
+    object, the holder (Method / Process) is constructed with that object in the parameter its constructor stores
+    as its evolvent, self.<holder_field> is that holder; and outside constructors nobody stores an `evolvent`
+    attribute of a holder or the holder attribute of the Solver."""
+    roles = C.roles_of(ctx)
+    si = ctx.ix.func('Solver.__init__')
+    hcls = ctx.ix.cls({'method': 'Method', 'process': 'Process'}[holder_field])
+    hinit = hcls.lookup('__init__')
+    if hinit is None:
+        return False
+    inits = {roles.fq(f) for f in (e.cls.methods['__init__'], hinit)}
+    ex = ctx.explorer(inline_ctor=False, inline=lambda f, st: f.name != '__init__' and bool(inits & roles.reach(f)))
+    # which constructor parameter becomes the holder's evolvent
+    pname = None
+    for p in C.normal_paths(ctx.explorer().explore(hinit)):
+        v = p.state.heap.get((key_of(var(hinit.param_names[0])), 'evolvent'))
+        a = v.single_atom() if isinstance(v, RF) else None
+        if isinstance(a, tuple) and a[0] == 'var' and a[1] in hinit.param_names:
+            pname = a[1]
+    if pname is None:
+        return False
+    selfk = key_of(var(si.param_names[0]))
+    n = 0
+    for p in C.normal_paths(ex.explore(si)):
+        evs = [ne for ne in C.new_events(p) if ne.d['cls'].is_subclass_of(e.cls)]
+        hs = [ne for ne in C.new_events(p) if ne.d['cls'].is_subclass_of(hcls)]
+        if len(evs) != 1 or len(hs) != 1:
+            return False
+        ve, vh = evs[0].d['result'], hs[0].d['result']
+        bound = dict(zip(hinit.param_names[1:], hs[0].d['args']))
+        bound.update(hs[0].d['kwargs'])
+        got = bound.get(pname)
+        if got is None or key_of(got) != key_of(ve):
+            return False
+        if key_of(p.state.heap.get((selfk, 'evolvent'))) != key_of(ve) or \
+                key_of(p.state.heap.get((selfk, holder_field))) != key_of(vh):
+            return False
+        n += 1
+    if not n:
+        return False
+    solver = ctx.ix.cls('Solver')
+    for m in roles.mutations():
+        if m.kind not in ('attr', 'aug') or m.init_self:
+            continue
+        if m.field == 'evolvent' and any(o.cls is not None and (o.cls.is_subclass_of(hcls) or o.cls.is_subclass_of(solver))
+                                         for o in m.bases):
+            return False
+        if m.field == holder_field and any(o.cls is not None and o.cls.is_subclass_of(solver) for o in m.bases):
+            return False
+    return True
+
+
 def check(ctx: Ctx):
     e = evo.evo_of(ctx)
     rid = 'R20.1'
@@ -92,13 +145,20 @@ def check(ctx: Ctx):
     for holder_field in ('method', 'process'):
         hs = [h for h in pta.read_field(so, holder_field) if h.kind not in ('cls', 'func', 'bm', 'module')]
         n5 += 1 if hs else 0
-        bad_h = [h for h in hs if not (h.kind == 'inst' and h.site.startswith(si0.module.relpath))]
+        # built by the constructor: allocated in Solver.__init__ or in a function the constructor calls (a factory)
+        ctor_reach = {q.replace('@setter', '') for q in pta.reachable([si0])} | {si0.qualname}
+        bad_h = [h for h in hs if not (h.kind == 'inst' and h.scope == 'func' and h.owner in ctor_reach)]
         foreign = []
         for h in hs:
             if h in bad_h:
                 continue
             foreign += [x for x in pta.read_field(h, 'evolvent')
                         if x.kind not in ('cls', 'func', 'bm', 'module') and x not in own_ev]
+        if foreign and all(x.kind == 'ext_inst' for x in foreign) and _wired_by_constructor(ctx, e, holder_field):
+            # the only other candidate is the placeholder "an Evolvent supplied by a caller from outside" of a factory
+            # the constructor goes through (the points-to relation merges the callers of a function); on the paths of
+            # the constructor the holder receives exactly the evolvent constructed there, and nobody re-binds it
+            foreign = []
         if True:
             h = (bad_h or hs or [None])[0]
             built_here = not bad_h
